@@ -280,12 +280,184 @@ theorem outer_ok : ∀ (src : List UInt8) (gp wp : Nat) (prev : UInt8) (pp lp wa
       (o.push curr) b1 (by rw [hk] at hpp'; exact hpp') b2 hrp' hrl' hmod' out hin d2 tail hs2
     refine ⟨s', ?_, ?_, hsync'⟩
     · simp only [List.length_cons, outer, hkw, hget, hbym, hd1, indexLit_eq, hl, htn]
-      simp only [ne_eq, not_true_eq_false, if_false, ge_iff_le, Nat.not_succ_le_zero]
+      simp only [ne_eq, not_true_eq_false, if_false, ge_iff_le]
       have hcu : curr.toNat.toUInt8 = curr := by
         apply UInt8.toNat_inj.mp; rw [toUInt8_toNat]; have := curr.toNat_lt; omega
       have hst : stateTransitionLiteral.getD 0 0 = 0 := rfl
       rw [hcu, hst]
       exact hs'
     · rw [hout']; rfl
+
+/-! ## one chunk: range-decoder start-up, bitstream, end-of-chunk checks -/
+
+/-- on the raw range-coded payload `encodeRaw` produces for `c` (followed by anything), the Wuffs decoder's
+    chunk body — first code byte `0x00`, `bits <> 0xFFFF_FFFF`, the literal loop, then `stashed_bits == 0`
+    at the end — writes exactly `c`, consumes exactly the payload and reports `len(rawLZMA)` encoded bytes -/
+theorem codeAndBitstream_ok (c rest : List UInt8) (o : Array UInt8) (hlen : c.length < 2 ^ 63) :
+    codeAndBitstream 3 0 2 c.length 0 0 initAo00 initLit ((encodeRaw #[] c).toList ++ rest) o
+      = .ok (pushList o c, rest, (encodeRaw #[] c).size) := by
+  rw [encodeRaw_nil_eq]
+  obtain ⟨hvf, hall⟩ := rawLoop_ok c 0 0 initPosProbs initLitProbs encInit encInit_valid
+    initPosProbs_ok initLitProbs_ok
+  have hW := outer_ok c 0 0 0 initPosProbs initLitProbs initAo00 initLit encInit o encInit_valid
+    initPosProbs_ok initLitProbs_ok relPos_init relLit_init rfl
+  generalize hef : encodeRawLoop c 0 0 initPosProbs initLitProbs encInit = ef at *
+  obtain ⟨flen, fval⟩ := flush_spec ef hvf
+  rw [← Array.length_toList]
+  generalize hout : ef.flush.dst.toList = out at *
+  have hwf := hvf.wlo
+  have hinf : Inside ef out := by
+    refine ⟨by omega, ?_, ?_⟩
+    · rw [← flen, List.take_length, fval]; omega
+    · rw [← flen, List.take_length, fval]; omega
+  obtain ⟨hin0, _⟩ := hall out hinf
+  obtain ⟨n0, v0, v1⟩ := hin0
+  have hnd : nDig encInit = 5 := rfl
+  have hL0 : Lval encInit = 0 := rfl
+  have hw0 : encInit.width = 4294967295 := rfl
+  rw [hnd] at n0 v0 v1
+  rw [hL0, hw0] at v1
+  rcases out with _ | ⟨s0, _ | ⟨s1, _ | ⟨s2, _ | ⟨s3, _ | ⟨s4, rest'⟩⟩⟩⟩⟩
+  · exact absurd n0 (by decide)
+  · exact absurd n0 (by simp)
+  · exact absurd n0 (by simp)
+  · exact absurd n0 (by simp)
+  · exact absurd n0 (by simp)
+  · have hv5 : val (List.take 5 (s0 :: s1 :: s2 :: s3 :: s4 :: rest')) = val [s0, s1, s2, s3, s4] := rfl
+    rw [hv5] at v1
+    have hval5 : val [s0, s1, s2, s3, s4] = s0.toNat * 4294967296 + val [s1, s2, s3, s4] := by
+      have := val_cons s0 [s1, s2, s3, s4]
+      simpa using this
+    have h40 : val [s1, s2, s3, s4] < 4294967296 := by
+      have := val_lt [s1, s2, s3, s4]; simpa using this
+    have hs0 : s0 = 0 := by
+      apply UInt8.toNat_inj.mp
+      show s0.toNat = 0
+      omega
+    subst hs0
+    have hz : (0 : UInt8).toNat = 0 := rfl
+    have hsync0 : Sync encInit
+        { src := rest' ++ rest,
+          bits := (s1.toNat <<< 24) ||| (s2.toNat <<< 16) ||| (s3.toNat <<< 8) ||| s4.toNat,
+          width := 0xFFFFFFFF } (0 :: s1 :: s2 :: s3 :: s4 :: rest') rest := by
+      refine ⟨rfl, by rw [hnd]; simp, by rw [hnd]; rfl, ?_⟩
+      rw [hnd, hL0, hv5, hval5, bytes4]
+      simp
+    obtain ⟨s', hs', hout', hsy⟩ := hW _ hinf _ rest hsync0
+    -- the end-of-chunk state: everything read, `bits = 0`
+    obtain ⟨_, _, hsrc, hbits⟩ := hsy
+    have hbits0 : s'.d.bits = 0 := by
+      rw [← flen, List.take_length, fval] at hbits; omega
+    have hsrc' : s'.d.src = rest := by
+      rw [hsrc, ← flen]; simp
+    have hne : ¬ ((s1.toNat <<< 24) ||| (s2.toNat <<< 16) ||| (s3.toNat <<< 8) ||| s4.toNat = 0xFFFFFFFF) := by
+      rw [bytes4]; rw [hval5, hz] at v1; omega
+    have hpe : min (0 + c.length) 0xFFFFFFFFFFFFFFFF = c.length := by omega
+    simp only [List.cons_append, codeAndBitstream, ne_eq, not_true_eq_false, if_false, hne, hpe, Nat.sub_zero]
+    have h2 : ¬ (c.length = 0xFFFFFFFFFFFFFFFF) := by omega
+    have hm1 : (1 <<< 0) - 1 = 0 := rfl
+    have hm2 : (1 <<< 2) - 1 = 3 := rfl
+    simp only [h2, if_false, hm1, hm2, hs', hbits0, hsrc', hout']
+    have hl : 5 + ((rest' ++ rest).length - rest.length) = (0 :: s1 :: s2 :: s3 :: s4 :: rest').length := by
+      simp only [List.length_append, List.length_cons]; omega
+    rw [hl]
+    simp
+
+/-! ## LZMA1 -/
+
+/-- **the Wuffs std/lzma decoder accepts every LZMA file of `lib/litonlylzma`** (model of the literal path):
+    it returns the payload, leaves exactly the trailing bytes unread, and never leaves the modelled fragment -/
+theorem lzma1_accepts (src tail : List UInt8) (hlen : src.length < 2 ^ 63) :
+    decodeLzma1 ((encodeLZMA #[] src).toList ++ tail) = Res.ok (pushList #[] src) tail := by
+  rw [encodeLZMA_toList]
+  have hcb := codeAndBitstream_ok src tail #[] hlen
+  have hl8 : ¬ ((le64 src.length ++ (encodeRaw #[] src).toList ++ tail).length < 8) := by
+    simp [le64_length]
+  have hrd : readLe64 (le64 src.length ++ (encodeRaw #[] src).toList ++ tail) = src.length := by
+    rw [List.append_assoc]
+    exact readLe64_le64 _ (by omega) _
+  have hdrop : (le64 src.length ++ (encodeRaw #[] src).toList ++ tail).drop 8
+      = (encodeRaw #[] src).toList ++ tail := by
+    rw [List.append_assoc]; exact List.drop_left' (le64_length _)
+  have h93 : (0x5D : UInt8).toNat = 93 := rfl
+  simp only [List.cons_append, decodeLzma1, h93]
+  simp only [show ¬ (93 ≥ 225) by omega, if_false, show 93 % 9 = 3 by rfl, show 93 / 9 % 5 = 0 by rfl,
+    show 93 / 9 / 5 = 2 by rfl, show ¬ (3 + 0 > 4) by omega, hl8, hrd, hdrop, show min 3 4 = 3 by rfl]
+  rw [if_neg (by omega), hcb]
+
+/-! ## LZMA2 -/
+
+theorem size16or (n : Nat) (h1 : 0 < n) (h2 : n ≤ 65536) :
+    1 + ((((n - 1) >>> 8).toUInt8.toNat <<< 8) ||| (n - 1).toUInt8.toNat) = n := by
+  have hb : (n - 1).toUInt8.toNat < 2 ^ 8 := (n - 1).toUInt8.toNat_lt
+  rw [← Nat.shiftLeft_add_eq_or_of_lt hb]
+  have := size16 n h1 h2
+  omega
+
+/-- one round of the LZMA2 chunk loop undoes one round of `encodeXz`'s chunk loop, in either form -/
+theorem lzma2_chunk (c : List UInt8) (hc1 : 0 < c.length) (hc2 : c.length ≤ 65536) (fuel : Nat) (ndr : Bool)
+    (o : Array UInt8) (rest : List UInt8) :
+    lzma2Chunks (fuel + 1) ndr o (chunkBytes c ++ rest) = lzma2Chunks fuel false (pushList o c) rest := by
+  have e10 : ¬ ((0x01 : UInt8) = 0x00) := by decide
+  have e224_0 : ¬ ((0xE0 : UInt8) = 0x00) := by decide
+  have t1 : (0x01 : UInt8).toNat = 1 := rfl
+  have t224 : (0xE0 : UInt8).toNat = 224 := rfl
+  have t93 : (0x5D : UInt8).toNat = 93 := rfl
+  unfold chunkBytes encodeXzChunk
+  dsimp only
+  split
+  · -- uncompressed chunk
+    have hsz := size16or c.length hc1 hc2
+    have hl : ¬ ((c ++ rest).length < c.length) := by rw [List.length_append]; omega
+    simp only [pushList_toList, Array.toList_push, List.nil_append, List.cons_append]
+    simp only [lzma2Chunks, e10, t1, hsz, hl, if_true, if_false, List.take_left, List.drop_left,
+      show (1 : Nat) < 0x80 by omega, show ¬ ((1 : Nat) ≥ 0x02 ∧ ((1 : Nat) > 0x02 ∨ ndr = true)) by omega]
+  · -- LZMA chunk
+    rename_i hch
+    have h5 := encodeRaw_length c
+    have hm1 : 0 < (encodeRaw #[] c).size := by omega
+    have hm2 : (encodeRaw #[] c).size ≤ 65536 := by omega
+    have hsz := size16or c.length hc1 hc2
+    have hcz := size16or (encodeRaw #[] c).size hm1 hm2
+    have hcb := codeAndBitstream_ok c rest o (by omega)
+    simp only [Array.toList_append, Array.toList_push, List.nil_append, List.cons_append]
+    simp only [lzma2Chunks, e224_0, t224, t93, hsz, hcz, if_false,
+      show ¬ ((224 : Nat) < 0x80) by omega, show ¬ ((224 : Nat) < 0xE0) by omega,
+      show ¬ (93 ≥ 225) by omega, show 93 % 9 = 3 by rfl, show 93 / 9 % 5 = 0 by rfl,
+      show 93 / 9 / 5 = 2 by rfl, show ¬ (3 + 0 > 4) by omega, show min 3 4 = 3 by rfl,
+      show (224 &&& 0x1F) <<< 16 = 0 by rfl, Nat.zero_add, hcb, ne_eq, not_true_eq_false]
+
+/-- **the Wuffs std/lzma decoder in LZMA2 mode accepts the chunk sequence of every XZ file of
+    `lib/litonlylzma`**: any number of chunks, both forms, end marker; what follows is left unread -/
+theorem lzma2_chunks : ∀ (n : Nat) (rem : List UInt8) (fuel : Nat) (ndr : Bool) (o : Array UInt8)
+    (rest : List UInt8), rem.length = n → (chunksBytes rem).length + 1 ≤ fuel →
+    lzma2Chunks fuel ndr o (chunksBytes rem ++ 0x00 :: rest) = Res.ok (pushList o rem) rest := by
+  intro n
+  induction n using Nat.strongRecOn with
+  | _ n ih =>
+    intro rem fuel ndr o rest hn hfuel
+    obtain ⟨f, rfl⟩ : ∃ f, fuel = f + 1 := ⟨fuel - 1, by omega⟩
+    by_cases h0 : rem.length = 0
+    · have : rem = [] := List.eq_nil_of_length_eq_zero h0
+      subst this
+      rw [chunksBytes_nil]
+      simp [lzma2Chunks, pushList]
+    · by_cases hbig : rem.length > 0x10000
+      · have hpos := chunkBytes_length_pos (rem.take 0x10000)
+        rw [chunksBytes_big rem hbig, List.length_append] at hfuel
+        rw [chunksBytes_big rem hbig, List.append_assoc,
+          lzma2_chunk _ (by simp; omega) (by simp; omega)]
+        have hd : (rem.drop 0x10000).length < n := by simp only [List.length_drop]; omega
+        rw [ih _ hd _ _ _ _ _ rfl (by omega), pushList_append, List.take_append_drop]
+      · have hpos := chunkBytes_length_pos rem
+        rw [chunksBytes_small rem h0 hbig] at hfuel
+        rw [chunksBytes_small rem h0 hbig, lzma2_chunk _ (by omega) (by omega)]
+        obtain ⟨f', rfl⟩ : ∃ f', f = f' + 1 := ⟨f - 1, by omega⟩
+        simp [lzma2Chunks]
+
+theorem lzma2_accepts (src rest : List UInt8) :
+    decodeLzma2 (chunksBytes src ++ 0x00 :: rest) = Res.ok (pushList #[] src) rest := by
+  unfold decodeLzma2
+  exact lzma2_chunks _ src _ _ _ _ rfl (by simp)
 
 end WuffsVerif.WLzma
